@@ -299,6 +299,23 @@ where StandardNormal: Distribution<F>, Exp1: Distribution<F>, Open01: Distributi
                        else { guarded(|| { let u: F = Open01.sample(&mut rb); let g: F = Gamma::new(k + F::one(), th).unwrap().sample(&mut rb); g * u.powf(F::one() / k) }) };
             push(if k == F::one() { "Gamma(1)" } else { "Gamma(<1)" }, vec![k, th], got, ra.words(), refv, rb.words(), &tag, out);
         }
+        // SkewNormal (Ghorbanzadeh et al., cited in the type's documentation): alpha = 0: N1; alpha = 1: max(N1, N2); alpha = -1: min(N1, N2);
+        // otherwise ((1 + alpha) max + (1 - alpha) min) / sqrt(2 (1 + alpha^2)); then location + scale * z
+        for (loc, sc, al) in [(f(0.0), f(1.0), f(0.0)), (f(2.0), f(3.0), f(1.0)), (f(-1.0), f(0.5), f(-1.0)), (f(0.5), f(2.0), f(4.0)), (f(0.0), f(1.0), f(-0.3))] {
+            let Ok(d) = SkewNormal::new(loc, sc, al) else { continue };
+            let (mut ra, mut rb) = (rng0.clone(), rng0.clone());
+            let got = guarded(|| d.sample(&mut ra));
+            let refv = guarded(|| {
+                let n1: F = StandardNormal.sample(&mut rb);
+                let z = if al == F::zero() { n1 } else {
+                    let n2: F = StandardNormal.sample(&mut rb);
+                    let (mx, mn) = (n1.max(n2), n1.min(n2));
+                    if al == F::one() { mx } else if al == -F::one() { mn } else { ((F::one() + al) * mx + (F::one() - al) * mn) / (f(2.0) * (F::one() + al * al)).sqrt() }
+                };
+                loc + sc * z
+            });
+            push("SkewNormal", vec![loc, sc, al], got, ra.words(), refv, rb.words(), &tag, out);
+        }
         // Normal(0, 1) = StandardNormal
         { let d = Normal::new(F::zero(), F::one()).unwrap(); let (mut ra, mut rb) = (rng0.clone(), rng0.clone());
           let got = guarded(|| d.sample(&mut ra)); let refv = guarded(|| { let n: F = StandardNormal.sample(&mut rb); n });
